@@ -6,8 +6,9 @@
 (* JSON values arrive as a tagged AST (TLC's JSON reader has no null and   *)
 (* no non-integers, and TLC equality is typed):                            *)
 (*   [t |-> "null"]            [t |-> "bool", v |-> TRUE]                  *)
-(*   [t |-> "int", v |-> 7]    [t |-> "num", s |-> "1.5"]   (non-integer   *)
-(*   or beyond 32 bits: carried as text, never compared by magnitude)      *)
+(*   [t |-> "int", v |-> 7]    [t |-> "num", s |-> "1.5", i |-> FALSE]      *)
+(*   (non-integer, or integral -- i = TRUE -- but beyond 30 bits: carried  *)
+(*   as text, never compared by magnitude)                                 *)
 (*   [t |-> "str", v |-> "abc"]                                            *)
 (*   [t |-> "arr", v |-> <<...>>]                                          *)
 (*   [t |-> "obj", k |-> <<keys>>, v |-> <<values>>]                       *)
@@ -39,7 +40,7 @@ Eq(a, b) ==
 IsType(ty, v) ==
   CASE ty = "null" -> v.t = "null"
     [] ty = "boolean" -> v.t = "bool"
-    [] ty = "integer" -> v.t = "int"
+    [] ty = "integer" -> v.t = "int" \/ (v.t = "num" /\ v.i)   \* integral but beyond the evaluator's range
     [] ty = "number" -> v.t \in {"int", "num"}
     [] ty = "string" -> v.t = "str"
     [] ty = "array" -> v.t = "arr"
